@@ -111,7 +111,9 @@ theorem ns_resumeGate (w : World c) (h : NoStale w) : ∀ r, resumeGate w = some
   repeat' split at hr
   all_goals first | (injection hr with hr; subst hr; exact h) | cases hr
 theorem ns_parkOrFail (w : World c) (h : NoStale w) : NoStale (parkOrFail w).1 := by
-  simp only [parkOrFail]; split <;> exact h
+  simp only [parkOrFail]
+  repeat' split
+  all_goals exact h
 theorem ns_parkedRead (n : Option Nat) (w : World c) (h : NoStale w) : NoStale (parkedRead w n).1 := by
   simp only [parkedRead]
   split
